@@ -209,7 +209,7 @@ pub fn svg(sink: &mut Sink, seed: u64, thorough: bool) {
     for v in 1..=40usize {
         let qr = qr_of(v, seed);
         for s in 0..6usize {
-            if !thorough && v > 8 && (v + s) % 3 != 0 { continue; }
+            if !thorough && v > 12 && (v + s) % 2 != 0 { continue; }
             let m = [0usize, 4, 1, 9][(v + s) % 4];
             let mut p = vec![Call::Margin(m)];
             if (v + s) % 2 == 0 { p.push(Call::Shape(s)); } else { p.push(Call::ShapeColor(s, COLORS[(v + s) % 4].to_vec())); p.push(Call::Shape((s + 1) % 6)); }
